@@ -20,7 +20,7 @@
    found the clause true on 35,681 leaves of the compiled parser. *)
 From Coq Require Import List NArith Arith Bool Strings.String.
 From V Require Import Base.Bytes Base.Res Model.Ast Model.Strings Model.Blocks Model.Inlines Model.Parse Proofs.InlinesTotal2
-  Proofs.LeafPremMain Proofs.LeafPremCells.
+  Proofs.LeafPremMain Proofs.LeafPremCells Proofs.LeafPremFirstMain.
 From V Require Spec.EscapeSpec.
 Import ListNotations.
 Local Open Scope string_scope.
@@ -53,6 +53,21 @@ Theorem Parse_document_inline_phase_partial : forall o u x r,
              parse_document_model o u x = post_phase o (footnote_phase o u t1).
 Proof. exact parse_document_inline_phase. Qed.
 Print Assumptions Parse_document_inline_phase_partial.
+
+(* without tables: every premise of the inline phase is established by the block phase (Proofs/LeafPremBlank.v,
+   LeafPremPct.v, LeafPremCur.v, LeafPremFirst.v: no Paragraph / Heading starts with a blank line) *)
+Theorem Parse_inline_phase_total_no_tables : forall o u x r,
+  po_table o = false -> parse_blocks (bopts_of o u) x = Ok r ->
+  exists t, inline_phase o u (br_root r) (br_refmap r) (br_max_ref_size r) = Ok t.
+Proof. exact inline_phase_total_no_tables. Qed.
+Print Assumptions Parse_inline_phase_total_no_tables.
+
+Theorem Parse_document_no_tables : forall o u x r,
+  po_table o = false -> parse_blocks (bopts_of o u) x = Ok r ->
+  exists t1, inline_phase o u (br_root r) (br_refmap r) (br_max_ref_size r) = Ok t1 /\
+             parse_document_model o u x = post_phase o (footnote_phase o u t1).
+Proof. exact parse_document_no_tables. Qed.
+Print Assumptions Parse_document_no_tables.
 
 (* non-vacuity: a document with a preface paragraph, a table (header and body cells, one filler cell), an ATX heading with
    closing hashes, an empty ATX heading, a setext heading after a stripped reference definition, a non-ASCII paragraph
